@@ -53,6 +53,8 @@ TEnc == IsEvent("enc") /\ LET e == Rec[l] IN Encode(e.form, e.a) /\ obs'.out = e
 TEncF == IsEvent("encf") /\ LET e == Rec[l] IN EncodeField(e.form, e.a) /\ obs'.out = e.out
 TEq == IsEvent("eq") /\ LET e == Rec[l] IN ObsEq(e.form, e.a, e.b) /\ obs'.out = e.out
 TIsId == IsEvent("isid") /\ LET e == Rec[l] IN ObsIsIdentity(e.pred, e.a) /\ obs'.out = e.out
+TAObs == IsEvent("aobs") /\ LET e == Rec[l] IN ObsAffineId(e.op, e.form, e.pred, e.a, e.b) /\ obs'.out = e.out
+TAEnc == IsEvent("aenc") /\ LET e == Rec[l] IN ObsAffineEnc(e.op, e.form, e.a, e.b) /\ obs'.out = e.out
 THash == IsEvent("hash") /\ LET e == Rec[l] IN ObsHash(e.ty, e.a, e.h)
 TRt == IsEvent("rt") /\ LET e == Rec[l] IN
          /\ RoundTrip(e.form, e.entry, e.a, e.dst)
@@ -70,7 +72,7 @@ TForce == /\ l <= Len(Rec) /\ Has(Rec[l], "force") /\ l' = l + 1
              /\ obs' = [k |-> "forced"]
 
 TNext == TReset \/ TConst \/ TDecode \/ TEll \/ TH2c \/ TCtor \/ TConv \/ TRescale \/ TTorque
-         \/ TRt \/ TRt2 \/ TSqrt \/ TBin \/ TNeg \/ TDbl \/ TSum \/ TMul \/ TMsm \/ TEnc \/ TEncF \/ TEq \/ TIsId \/ THash \/ TForce
+         \/ TRt \/ TRt2 \/ TSqrt \/ TBin \/ TNeg \/ TDbl \/ TSum \/ TMul \/ TMsm \/ TEnc \/ TEncF \/ TEq \/ TIsId \/ TAObs \/ TAEnc \/ THash \/ TForce
 TSpec == TInit /\ [][TNext]_tvars
 
 TraceAccepted ==
